@@ -58,7 +58,7 @@ def extra() -> List[List[dict]]:
     S = lambda op, t=26: {"a": "Sub", "op": op, "t": t}
     out = []
     # every error class followed by a good frame, with and without the sync check
-    for cls in ("unknown", "wrongsize", "wrongsize0", "wrongver", "wrongver0", "zerover", "zerolen", "ack"):
+    for cls in ("unknown", "wrongsize", "wrongsize0", "wrongver", "wrongver0", "wrongboth", "zerover", "zerolen", "ack"):
         for sync in (False, True):
             out.append([S("sub", 26), S("sub", 14), A(cls, 26, 1), A("good", 26, 2), A(cls, 26, 3), A(cls, 26, 4), A("good", 26, 5),
                         R("pos", False, sync), R("pos", False, sync), R("pos", False, sync), R("pos", False, sync), R("zero", True, sync), R("zero", False, sync)])
